@@ -629,6 +629,14 @@ pub fn iterglue(rng: &mut Rng, n: usize, sink: &mut Sink) {
                     }
                 }
             }
+            // the handles that share buffers with the shapes (a clone of the over-allocated one, the full text behind the
+            // truncated one) must still read what they read before: nothing above may have written into a shared buffer
+            let want_keep = [tgt.to_string(), format!("{tgt}STALE TAIL BYTES BEHIND THE END")];
+            for (k, w) in keep.iter().zip(want_keep.iter()) {
+                if k.as_str() != w {
+                    sink.fail(&["C02", "C01"], format!("after extend/collect calls on handles sharing its buffer, a live handle reads {:?} instead of {:?} (items {:?})", k.as_str(), w, items));
+                }
+            }
             drop(keep);
         }
     }
